@@ -54,6 +54,7 @@ type Env struct {
 	Tables      map[string]symex.Val
 	Raw         map[string]json.RawMessage
 	Findings    *Findings
+	FuncTables  map[string]*symex.FuncTable
 	Tier        string
 	Seed        int
 	Scratch     string
@@ -122,7 +123,7 @@ var Properties = map[string]*Property{}
 
 func Register(p *Property) { Properties[p.ID] = p }
 
-var rePos = regexp.MustCompile(`@[^/\s\]]*(/[^\s\]]*)?:\d+`)
+var rePos = regexp.MustCompile(`@\?|@[^/\s\]]*(/[^\s\]]*)?:\d+`)
 
 // StableName strips source positions from an obligation name.
 func StableName(n string) string { return rePos.ReplaceAllString(n, "") }
@@ -151,6 +152,12 @@ func SetupEnv(repo, verif, tier string, seed int, pkgs []string) (*Env, error) {
 		return nil, fmt.Errorf("tables: %v", err)
 	}
 	env.Tables, env.Raw = tb, raw
+	env.FuncTables = map[string]*symex.FuncTable{}
+	for rel, sp := range prog.ByRel {
+		for k, v := range symex.ExtractFuncTables(sp, rel) {
+			env.FuncTables[k] = v
+		}
+	}
 	env.Findings = &Findings{}
 	if b, err := os.ReadFile(filepath.Join(verif, "known_findings.json")); err == nil {
 		if err := json.Unmarshal(b, env.Findings); err != nil {
@@ -202,7 +209,7 @@ func Run(id, repo, verif, tier string, seed int, writeBaseline bool) int {
 			g.Jobs[i].ExpectFail = true
 		}
 	}
-	res := run.Discharge(g.Jobs, env.Timeout, seed, 8)
+	res := run.Discharge(g.Jobs, env.Timeout, seed, 12)
 
 	// group results by stable name
 	type group struct {
